@@ -233,6 +233,10 @@ class SimFS:
         flt = self._fault("open", rel, mode)
         if flt is not None:
             raise OSError(ERRNOS[flt["errno"]], os.strerror(ERRNOS[flt["errno"]]), os.fspath(file))
+        if "b" not in mode and len(a) >= 2 and a[1] in (None, "locale"):
+            a = (a[0], self.encoding) + tuple(a[2:])
+        if "b" not in mode and kw.get("encoding", "x") in (None, "locale"):
+            kw["encoding"] = self.encoding
         if "b" not in mode and len(a) < 2 and "encoding" not in kw:
             # text mode without an explicit encoding: the locale decides (the harness itself runs in
             # UTF-8 mode, so the simulated locale is applied here)
@@ -582,6 +586,14 @@ class World:
             sys.argv = list(cfg["argv"])
         builtins.open = fs.open
         io.open = fs.open           # pathlib and friends resolve io.open at call time
+        import locale as _locale
+        old_loc = (io.text_encoding, _locale.getpreferredencoding, getattr(_locale, "getencoding", None))
+        # code that resolves "the default encoding" itself (pathlib, subprocess-style helpers) must see
+        # the simulated locale as well
+        io.text_encoding = lambda encoding, stacklevel=2: fs.encoding if encoding is None else encoding
+        _locale.getpreferredencoding = lambda do_setlocale=True: fs.encoding
+        if old_loc[2] is not None:
+            _locale.getencoding = lambda: fs.encoding
         _ren, _rep = os.rename, os.replace
         os.rename = lambda s_, d_, *a, **kw: fs.rename(_ren, s_, d_, *a, **kw)
         os.replace = lambda s_, d_, *a, **kw: fs.rename(_rep, s_, d_, *a, **kw)
@@ -653,6 +665,9 @@ class World:
             builtins.open = old[3]
             io.open = old[4]
             os.rename, os.replace = old[5], old[6]
+            io.text_encoding, _locale.getpreferredencoding = old_loc[0], old_loc[1]
+            if old_loc[2] is not None:
+                _locale.getencoding = old_loc[2]
             sys.stdout, sys.stderr, sys.argv = old[0], old[1], old[2]
             for k, v in _REAL_TIME.items():
                 setattr(_time, k, v)
